@@ -1,5 +1,6 @@
 import DirectVerif.Driver.Common
 import DirectVerif.Model.Recon
+import DirectVerif.Model.C14Loop
 /-!
 Line-protocol interpreter of the reconstruction model (C14).
 
@@ -7,8 +8,13 @@ Line-protocol interpreter of the reconstruction model (C14).
       -> shape' | data'                                        (`_process_output`)
   recon   fname size … | fnames_1 | outs_1 targets_1 | fnames_2 | outs_2 targets_2 | …
       -> per yield: fname n outs… targets… ; trailing group `-1 code` if the generator raised
-  predict layout | world rank bs | h w cplx | res | scale nums | scale dens | data
-      -> per yielded volume: fname n h' w' data…
+  predict layout | world rank bs | h w cplx | res | scale nums | scale dens | data [| slice_nos]
+      -> per yielded volume: fname n h' w' data…      (the items' `slice_no` are part of the input; the model has
+         no use for them: `C14.reconstruct_ignores_slice_no`, `Bridge.C14.recon_loop_reads_eq`)
+  recon2  fname size … | fnames_1 | outs_1 targets_1 | slice_nos_1 loss_1 | fnames_2 | …
+      -> per yield: fname n outs… targets… mean(loss_dict_list) ; trailing group `-1 code` if the generator raised
+  inwindow k | delivered order of the batches 0 … n-1
+      -> 1 iff a loader with `k` batches in flight can deliver this order (`Recon.windowOrders`)
 -/
 namespace DirectVerif.Driver.C14
 open DirectVerif DirectVerif.Driver DirectVerif.Recon DirectVerif.Sampler
@@ -80,6 +86,39 @@ def opRecon (table : List Int) (gs : List (List Int)) : String :=
     let ys : List (List Int) := r.1.map fun (vol, f) =>
       [(f : Int), (vol.length : Int)] ++ vol.map (·.1) ++ vol.map (·.2)
     okG (ys ++ match r.2 with | none => [] | some e => [[-1, errCode e]])
+
+/-- batches with slice numbers and a loss value: three groups per batch -/
+def parseBatchesL : List (List Int) → Option (List (LBatch (Int × Int) Int))
+  | [] => some []
+  | fn :: vals :: mt :: rest =>
+    let n := fn.length
+    if vals.length ≠ 2 * n ∨ mt.length ≠ n + 1 then none else
+    (parseBatchesL rest).map fun bs =>
+      ⟨nats fn, mt.take n, List.zip (vals.take n) (vals.drop n), mt.getD n 0⟩ :: bs
+  | _ => none
+
+/-- `reduce_list_of_dicts(loss_dict_list)`: the mean (the harness sends values for which it is an integer) -/
+def meanI (ls : List Int) : Option Int :=
+  if ls.isEmpty then some 0 else
+  let s := ls.foldl (· + ·) 0
+  if s % (ls.length : Int) == 0 then some (s / (ls.length : Int)) else none
+
+def opRecon2 (table : List Int) (gs : List (List Int)) : String :=
+  let tbl := pairs table
+  let sizeOf (f : Nat) : Option Nat := (tbl.find? fun p => p.1 == (f : Int)).map fun p => p.2.toNat
+  match parseBatchesL gs with
+  | none => "err BadOp"
+  | some bs =>
+    let r := reconstructL sizeOf ((0, 0) : Int × Int) LState.init bs
+    if r.1.any (fun y => (meanI y.2.1).isNone) then "err Inexact" else
+    let ys : List (List Int) := r.1.map fun (vol, ls, f) =>
+      [(f : Int), (vol.length : Int)] ++ vol.map (·.1) ++ vol.map (·.2) ++ [(meanI ls).getD 0]
+    okG (ys ++ match r.2 with | none => [] | some e => [[-1, errCode e]])
+
+def opInWindow (k : Int) (delivered : List Int) : String :=
+  let n := delivered.length
+  if k ≤ 0 ∨ n > 9 then "err BadOp" else
+  if (windowOrders k.toNat ((List.range n).map fun (i : Nat) => (i : Int))).contains delivered then "ok 1" else "ok 0"
 
 def errName : RErr → String
   | .valueError => "ValueError" | .keyError => "KeyError" | .runtimeError => "RuntimeError"
@@ -188,6 +227,10 @@ def step (op : String) (gs : List (List Int)) : String :=
   | "procbatch", [key] :: shape :: data :: nums :: dens :: recon => opProcBatch key shape data nums dens recon
   | "recon", table :: rest => opRecon table rest
   | "predict", [layout, cfg, flags, hs, ws, rx, ry, nums, dens, data] => opPredict layout cfg flags hs ws rx ry nums dens data
+  | "predict", [layout, cfg, flags, hs, ws, rx, ry, nums, dens, data, snos] =>
+    if snos.length ≠ nums.length then "err BadOp" else opPredict layout cfg flags hs ws rx ry nums dens data
+  | "recon2", table :: rest => opRecon2 table rest
+  | "inwindow", [[k], delivered] => opInWindow k delivered
   | "write", [flags, names, dims, data] => opWrite flags names dims data
   | "bbs", [[ty, inp]] => opBbs ty inp
   | _, _ => "err BadOp"
